@@ -586,7 +586,7 @@ pub fn finish(cx: &Cx, kf: &KnownFindings, rep: &Report) -> i32 {
                 println!("VIOLATION property={} replay={}", cx.id, p.display());
                 println!("  phase={} detail: {}", v.phase, v.detail);
                 let c = v.case.to_string();
-                println!("  case: {}", if c.len() > 600 { &c[..600] } else { &c });
+                println!("  case: {}", c.chars().take(600).collect::<String>());
             }
         }
         return 1;
